@@ -1913,6 +1913,9 @@ func (g Gateway) Uint32SliceDelete(ctx context.Context, in *hydrapb.Uint32SliceD
 
 	for _, pair := range in.KeySlicePairs {
 
+		// set inside the guarded section below, acted on after the guard is released
+		sliceIsEmpty := false
+
 		func() {
 
 			// try to load the treasure
@@ -1935,13 +1938,19 @@ func (g Gateway) Uint32SliceDelete(ctx context.Context, in *hydrapb.Uint32SliceD
 			// if the length is 0, we can delete the treasure
 			size, err := treasureObj.Uint32SliceSize()
 			if err != nil || size == 0 {
-				// delete the treasure
-				if err := swampObj.DeleteTreasure(pair.GetKey(), false); err != nil {
-					errorsWhileDelete = append(errorsWhileDelete, err.Error())
-				}
+				sliceIsEmpty = true
 			}
 
 		}()
+
+		// The treasure is deleted only after the guard above was released: DeleteTreasure
+		// acquires the guard of the same treasure itself, and the guard is not re-entrant,
+		// so deleting while still holding it would wait for ourselves forever.
+		if sliceIsEmpty {
+			if err := swampObj.DeleteTreasure(pair.GetKey(), false); err != nil {
+				errorsWhileDelete = append(errorsWhileDelete, err.Error())
+			}
+		}
 
 	}
 
